@@ -25,7 +25,7 @@ func init() {
 			"on error / unknown-dedicated results.",
 		NotCovered: "parsing of identifiers from TLS server names, URL paths, userinfo and EDNS options (string work); " +
 			"the profile database's own lookups (C14); the password-hash comparison itself.",
-		Rules: map[string]string{"C03-R14": "auth settings are dropped by the file-cache codec only when absent or disabled; setProfiles stores deleted profiles over the live record (shared rules)", "C03-R13": "per-element objects built in conversion loops (server groups, devices) take no slice accumulated over earlier elements",
+		Rules: map[string]string{"C03-R15": "matchDomain: lower-cased name, the library's immediate-subdomain test against every device domain, first match wins", "C03-R14": "auth settings are dropped by the file-cache codec only when absent or disabled; setProfiles stores deleted profiles over the live record (shared rules)", "C03-R13": "per-element objects built in conversion loops (server groups, devices) take no slice accumulated over earlier elements",
 			"C03-R1":  "decision tree of Find equals the reference (channel precedence, deleted profile, authentication table)",
 			"C03-R2":  "supportsDeviceID table",
 			"C03-R3":  "who may construct *agd.DeviceResultOK",
@@ -46,6 +46,7 @@ func init() {
 const dfPkg = "dnssvc/internal/devicefinder."
 
 func runC03(c *an.Ctx) {
+	c03MatchDomain(c)
 	// ---- R14: authentication settings survive the file cache (nil only when absent or disabled); a deleted profile
 	// replaces the live record (shared with C10-R10 / C14-R8)
 	c.Floor("C03-R14", 2)
@@ -977,4 +978,42 @@ func c03FinderWiring(c *an.Ctx) {
 	if n == 0 {
 		c.Und("C03-R12", k+" config", fn.Pos(), "no ratelimitmw.Config literal found")
 	}
+}
+
+// c03MatchDomain holds the table of the device-domain match: the server name
+// is compared, lower-cased, with every configured device domain through
+// netutil.IsImmediateSubdomain (exactly one more label, separated by a dot),
+// and the first domain that matches is returned.
+func c03MatchDomain(c *an.Ctx) {
+	c.Floor("C03-R15", 1)
+	decide(c, "C03-R15", dfPkg+"matchDomain", an.DecideCfg{
+		Dom: an.Domain{"len(p1)": an.Ints(0, 1, 2), "imm:0": an.Bools, "imm:1": an.Bools},
+		OnCall: func(it *an.Interp, name string, args []an.AV) (an.AV, bool) {
+			switch {
+			case name == "strings.ToLower":
+				return an.Sym("lower(" + args[0].String() + ")"), true
+			case strings.HasSuffix(name, "netutil.IsImmediateSubdomain"):
+				for i := 0; i < 2; i++ {
+					if args[0].String() == "lower(p0)" && args[1].String() == fmt.Sprintf("p1[%d]", i) {
+						return it.Feature(fmt.Sprintf("imm:%d", i)), true
+					}
+				}
+				return an.Sym("subdomain test of " + args[0].String() + " against " + args[1].String()), true
+			}
+			return an.AV{}, false
+		},
+		Expect: func(f an.Features, o an.AOutcome) string {
+			want := `""`
+			for i := int64(0); i < f.I("len(p1)"); i++ {
+				if f.B(fmt.Sprintf("imm:%d", i)) {
+					want = fmt.Sprintf("p1[%d]", i)
+					break
+				}
+			}
+			if o.RetString() != want {
+				return want + " (the first device domain of which the lower-cased name is an immediate subdomain, by the library's label-aware test); got " + o.RetString()
+			}
+			return ""
+		},
+	})
 }
